@@ -102,6 +102,18 @@ def generate(rng, idx, tier, variant):
                         lplan[hk][-1].update({'any': True, 'dv': rng.choice(subs[b]['endo'] or subs[b]['exo']), 'c': rng.choice([0.25, 1.0, 3.0]), 'acc': True})
                 else:
                     lplan[hk].append({'a': 'noop'})
+        if rng.random() < 0.15 and 'nope' not in (select or []) and not any(x not in ids for x in (select or [])):
+            # the linker's hooks call back into the library while the joint solve is under way (re-entrant use)
+            hk = rng.choice(['before', 'eb', 'eb', 'ea', 'ea', 'after'])
+            what = rng.choice(['rebind', 'rebind', 'nested_next', 'nested_next', 'nested_other', 'swap', 'add_submodel', 'copy', 'export'])
+            cb = {'a': 'cb', 'what': what, 'via': rng.choice(['attr', 'item', 'replace_values'])}
+            if hk in ('before', 'after'):
+                lplan[hk] = [cb]
+            else:
+                kk = rng.randrange(max(1, min(len(lplan[hk]), 3)))
+                while len(lplan[hk]) <= kk:
+                    lplan[hk].append({'a': 'noop'})
+                lplan[hk][kk] = cb
         op = {'op': 'solve_t', 't': tn - n if rng.random() < 0.3 else tn, 'select': select, 'opts': opts, 'plans': plans, 'lplan': lplan}
         r_ = rng.random()
         if r_ < 0.25:
@@ -164,6 +176,74 @@ def generate(rng, idx, tier, variant):
     return {'spec': spec, 'ops': ops}
 
 
+def _linker_callback(self, t, tn, act, ctl, kw, rec):
+    """A linker hook that calls back into the library while the joint solve of period t is under way."""
+    d = self.__dict__
+    n = len(d['span'])
+    subs = d['submodels']
+    sel = [s_ for s_ in (kw.get('submodels') or []) if s_ in subs]
+    what = act['what']
+    quiet = dict(max_iter=2, tol=1.0, failures='ignore')
+    res = 'ok'
+    ctl.depth += 1
+    probes.NESTING[0] += 1
+    try:
+        if what == 'rebind':
+            # whole series replaced by equal lists: new array objects under the same names
+            targets = [(self, nm) for nm in d['check']] + [(subs[s_], nm) for s_ in sel for nm in subs[s_].__dict__['check']]
+            for obj, nm in targets:
+                vals = obj.__dict__['_' + nm].tolist()
+                if act.get('via') == 'replace_values':
+                    obj.replace_values(**{nm: vals})
+                elif act.get('via') == 'item':
+                    obj[nm] = vals
+                else:
+                    setattr(obj, nm, vals)
+        elif what == 'nested_next':
+            # a look-ahead solve of the next period from inside this one
+            if tn + 1 < n - d['leads'] and tn + 1 >= d['lags']:
+                rec['nested_period'] = tn + 1
+                self.solve_t(tn + 1, submodels=list(sel), **quiet)
+        elif what == 'nested_other':
+            # the same period solved for the submodels outside the selection (a satellite block)
+            others = [s_ for s_ in subs if s_ not in sel]
+            if others and rec['hook'] in ('after', 'ea'):
+                rec['nested_other'] = others
+                self.solve_t(t, submodels=others, **quiet)
+        elif what == 'swap':
+            # a checkpoint: the hook keeps the submodel object as it is and lets the linker go on with a copy
+            if sel:
+                sid = sel[0]
+                old = subs[sid]
+                new = old.copy()
+                oc, nc_ = probes.get_ctl(old), probes.get_ctl(new)
+                nc_.plan, nc_.bus, nc_.tag, nc_.count, nc_.log, nc_.raised = oc.plan, oc.bus, oc.tag, oc.count, oc.log, oc.raised
+                subs[sid] = new
+                rec['swapped'] = (sid, old, {nm: old.__dict__['_' + nm].copy() for nm in old.__dict__['index']})
+        elif what == 'add_submodel':
+            # another model joins the linker while a call is under way: this call was not asked to solve it
+            if subs and 'late' not in subs:
+                first = next(iter(subs.values()))
+                late = type(first)(d['span'])
+                probes.attach_ctl(late)
+                subs['late'] = late
+                rec['added'] = 'late'
+        elif what == 'copy':
+            self.copy()
+        elif what == 'export':
+            self.to_dataframes()
+            self.values  # noqa: B018
+            self.sizes  # noqa: B018
+    except probes.SimInterrupt:
+        raise
+    except Exception as e:
+        res = type(e).__name__
+    finally:
+        probes.NESTING[0] -= 1
+        ctl.depth -= 1
+    ctl.callbacks.append((what, res))
+
+
 def make_linker_class(fsic, own):
     """A scripted linker: its four hooks log to the controller and perform the planned action."""
     endo, exo, check = list(own['endo']), list(own['exo']), list(own['check'])
@@ -174,6 +254,9 @@ def make_linker_class(fsic, own):
         n = len(d['span'])
         tn = t + n if t < 0 else t
         key = f'{hook}:{tn}'
+        if ctl.depth or probes.NESTING[0]:
+            ctl.nested.append((hook, int(tn)))  # (a solve made by a callback: kept out of the history that is judged)
+            return
         k = ctl.count[key] = ctl.count.get(key, 0) + 1
         rec = {'hook': hook, 't': int(t), 'tn': int(tn), 'k': k, 'iteration': kw.get('iteration'), 'submodels': list(kw.get('submodels') or []), 'exc': None}
         ctl.log.append(rec)
@@ -190,7 +273,9 @@ def make_linker_class(fsic, own):
             if a == 'raise':
                 rec['exc'] = act['exc']
                 raise probes.EXCEPTIONS[act['exc']](f"injected {act['exc']} in linker hook")
-            if a == 'delta':
+            if a == 'cb':
+                _linker_callback(self, t, tn, act, ctl, kw, rec)
+            elif a == 'delta':
                 d['_L0'][t] = d['_L0'][t] + probes.fval(act['d'][0])
             elif a == 'link':
                 subs = d['submodels']
@@ -445,12 +530,38 @@ def execute(schedule, ctx):
         if t < 0:
             ctx.probe('negative-t')
 
+        # ---- what the hooks' own callbacks did on their own account (the user's doing, not the call's)
+        lrecs_ = probes.get_ctl(L).log
+        cb_periods = {r['nested_period'] for r in lrecs_ if r.get('nested_period') is not None}
+        cb_others = {s_ for r in lrecs_ for s_ in r.get('nested_other', [])}
+        for what_, res_ in probes.get_ctl(L).callbacks:
+            ctx.fault('callback-into-library' if res_ == 'ok' else 'callback-into-library-raised')
+            ctx.probe('linker-callback:' + what_)
+        for r in lrecs_:
+            if r.get('swapped'):
+                sid_, old_, at_swap = r['swapped']
+                now_ = {nm: old_.__dict__['_' + nm] for nm in old_.__dict__['index']}
+                cells_ = ref_solver.diff_cells(at_swap, now_)
+                # the object the hook kept is a checkpoint: the linker goes on with the copy it was given
+                chk('callback/checkpoint-changed-after-swap', not cells_, {'submodel': sid_, 'changed': cells_[:6]})
+                ctx.check('C11', 'linker/checkpoint-changed-by-solving-its-copy', not cells_, {'submodel': sid_, 'changed': cells_[:6]})
+                ctx.probe('linker-callback:swapped-in-a-copy')
+            if r.get('added'):
+                late = subs.get(r['added'])
+                if late is not None:
+                    ld = late.__dict__
+                    untouched = all(str(x) == '-' for x in ld['_status'].tolist()) and all(int(x) == -1 for x in ld['_iterations'].tolist()) and not probes.get_ctl(late).log and not probes.get_ctl(late).nested
+                    chk('callback/submodel-added-during-the-call-was-solved', untouched, {'status': [str(x) for x in ld['_status'].tolist()], 'evaluated': len(probes.get_ctl(late).log) + len(probes.get_ctl(late).nested)})
+                    del subs[r['added']]
+                    post.pop(r['added'], None)
         fired = bool(fault) and (any(r.get('exc') for r in probes.get_ctl(L).log) or any(r.get('exc') for sm in subs.values() for r in probes.get_ctl(sm).log))
 
         def unselected_untouched(sel):
             for sid in ids:
                 if sid in sel:
                     continue
+                if sid in cb_others:
+                    continue  # (a hook solved this one itself, on its own account)
                 by_hook = {(r['linked_to'][1], tn) for r in probes.get_ctl(L).log if r.get('linked_to') and r['linked_to'][0] == sid}
                 if by_hook:
                     ctx.probe('hook-writes-into-unselected-submodel')
@@ -484,7 +595,7 @@ def execute(schedule, ctx):
             chk('fault/raises', out['kind'] == 'raise', {'got': cls_out, 'fault': fault})
             unselected_untouched(selected)
             for key in post:
-                bad = [c for c in ref_solver.diff_cells(snap[key], post[key]) if c[1] != tn]
+                bad = [c for c in ref_solver.diff_cells(snap[key], post[key]) if c[1] != tn and c[1] not in cb_periods]
                 chk('frame/other-periods-untouched', not bad, {'where': key, 'changed': bad[:6], 'after': 'fault'})
             chk('status/alphabet', str(post['_']['status'][tn]) in ref_solver.ALPHABET, {'status': str(post['_']['status'][tn])})
             ctx.log(step, kind, t, selected, 'fault', cls_out, [list(b[:2]) for b in bus])
@@ -625,7 +736,7 @@ def execute(schedule, ctx):
             chk('stamp/selected-iterations-equal-linker', int(post[sid]['iterations'][tn]) == it_rec, {'submodel': sid, 'got': int(post[sid]['iterations'][tn]), 'linker': it_rec})
         # frame: nothing outside period t changes anywhere
         for key in post:
-            bad = [c for c in ref_solver.diff_cells(snap[key], post[key]) if c[1] != tn]
+            bad = [c for c in ref_solver.diff_cells(snap[key], post[key]) if c[1] != tn and c[1] not in cb_periods]
             chk('frame/other-periods-untouched', not bad, {'where': key, 'changed': bad[:6]})
         ctx.log(step, kind, t, selected, cls_out, st, it_rec, K, [list(b[:2]) for b in bus])
         ctx.outcome(kind, f'{cls_out}:{st}')
